@@ -434,6 +434,12 @@ def run(prog, chk):
     if memrules.clean_resets_bounds(prog, r9) < 2:
         raise Broken("no counter bounding a block released by a *_clean helper found (expected the list's size and capacity)")
     element_identity_rule(prog, chk)
+    r12 = chk.rule("R12-hash-keys-unique", "every insertion into a uthash table (HASH_ADD_KEYPTR) is reached only after a HASH_FIND for the "
+                   "key, or takes its keys from a source that is a set already (frozen table with reasons): a table or packet is a map",
+                   floor=5)
+    from .. import hashunique
+    if hashunique.rule(prog, r12) < 5:
+        raise Broken("fewer than 5 uthash insertions found")
     r11 = chk.rule("R11-source-read-before-destination-cleaned", "a function that copies one value onto an existing one cleans the "
                    "destination only after it has read the source (the new value of a member may be part of that member)", floor=1)
     if memrules.destination_cleaned_before_source_read(prog, r11) < 1:
